@@ -50,6 +50,8 @@ vars == <<prog, stack, reg, status, cv, ips, ost, busy, nx, ns, emit, log>>
 (* Vocabulary                                                              *)
 
 NoOut        == [k |-> "none", cls |-> "", v |-> 0]
+\* kinds of injected faults that derive from Exception (the others derive from BaseException only)
+ExceptionKinds == {"Exception", "StopIter", "Assertion", "Key", "Type", "Attr"}
 Ret(v)       == [k |-> "ret", cls |-> "", v |-> v]
 Raise(c, v)  == [k |-> "raise", cls |-> c, v |-> v]
 
@@ -250,7 +252,7 @@ CondPhase(t, fr, ph, L, next) ==
                 /\ Unch_ip /\ UNCHANGED <<prog, ost, status, ns>>)
     [] fr.sub = "reeval" ->
          IF r.k = "raise"
-           THEN IF r.cls = "Exception"
+           THEN IF r.cls \in ExceptionKinds
                   THEN Leave(t, fr, Raise("RuntimeErrorC", fr.c))        \* "Failed to recompute", chained
                   ELSE Leave(t, fr, r)                                  \* BaseException passes through
            ELSE Goto(t, [fr EXCEPT !.sub = "repr"])
@@ -266,7 +268,7 @@ CondPhase(t, fr, ph, L, next) ==
            ELSE ErrDone(t, fr, ph, ErrorOf(fr.c))
     [] fr.sub = "reprwait" ->
          \* reprlib absorbs an Exception raised by __repr__; anything else passes through
-         IF r.k = "raise" /\ r.cls # "Exception" THEN Leave(t, fr, r)
+         IF r.k = "raise" /\ r.cls \notin ExceptionKinds THEN Leave(t, fr, r)
          ELSE ErrDone(t, fr, ph, ErrorOf(fr.c))
     [] fr.sub = "fact" ->
          IF r.k = "raise" THEN Leave(t, fr, r)
